@@ -53,8 +53,29 @@ impl Quil for Qubit {
                     Err(ToQuilError::UnresolvedQubitPlaceholder)
                 }
             }
-            Variable(value) => write!(writer, "{value}").map_err(Into::into),
+            Variable(value) => write_qubit_variable(writer, value).map_err(Into::into),
         }
+    }
+}
+
+/// Write the name of a qubit variable.
+///
+/// The parser accepts both `q` and `%q` for a qubit variable.  A name that lexes as a keyword
+/// (`%LT`, `%BIT`, `%DAGGER`, ...) can only have been written with the sigil, so it is written back
+/// with it; every other name is written bare.
+pub(crate) fn write_qubit_variable(writer: &mut impl std::fmt::Write, name: &str) -> std::fmt::Result {
+    use crate::reserved::ReservedToken;
+    let is_keyword = matches!(
+        name.parse::<ReservedToken>(),
+        Ok(ReservedToken::Command(_)
+            | ReservedToken::DataType(_)
+            | ReservedToken::Modifier(_)
+            | ReservedToken::OtherKeyword(_))
+    );
+    if is_keyword {
+        write!(writer, "%{name}")
+    } else {
+        write!(writer, "{name}")
     }
 }
 
